@@ -5,6 +5,8 @@ import PysnarkModel.Driver.ProtoGuard
 import PysnarkModel.Driver.ProtoExit
 import PysnarkModel.Driver.ProtoSelect
 import PysnarkModel.Driver.ProtoStruct
+import PysnarkModel.Driver.ProtoHash
+import PysnarkModel.Driver.ProtoZkif
 open Pysnark Pysnark.Proto
 
 def handle (line : String) : String :=
@@ -17,6 +19,8 @@ def handle (line : String) : String :=
   | "X" :: rest => ProtoExit.handleExit rest
   | "S" :: rest => ProtoSelect.handleSelect rest
   | "K" :: rest => ProtoStruct.handlePack rest
+  | "Z" :: rest => ProtoZkif.handleZkif rest
+  | "PH" :: rest => ProtoHash.handlePoseidon rest
   | "NI" :: rest => ProtoStruct.handleSnark true rest
   | "NO" :: rest => ProtoStruct.handleSnark false rest
   | _ => "bad-line"
